@@ -156,9 +156,16 @@ type c14Run struct {
 	Ctx        string `json:"ctx,omitempty"`
 	CancelStep int    `json:"cancel_step,omitempty"`
 
-	OutFail   bool     `json:"out_fail,omitempty"`
-	OutFailAt int      `json:"out_fail_at,omitempty"`
-	BadVars   bool     `json:"bad_vars,omitempty"`
+	OutFail   bool `json:"out_fail,omitempty"`
+	OutFailAt int  `json:"out_fail_at,omitempty"`
+	BadVars   bool `json:"bad_vars,omitempty"`
+	// BadMode: Vars assign record-state specials (NR, FNR, RSTART, $0-related NF) and then an
+	// invalid OUTPUTMODE: the configuration is rejected after part of it has been applied
+	BadMode bool `json:"bad_mode,omitempty"`
+	// NilOpen: Config.OpenFile is nil (os.OpenFile; the run happens in a working directory that
+	// holds the same files under their plain names); NilShell: Config.ShellCommand is nil (/bin/sh)
+	NilOpen   bool     `json:"nil_open,omitempty"`
+	NilShell  bool     `json:"nil_shell,omitempty"`
 	BadSep    bool     `json:"bad_sep,omitempty"`
 	Environ   []string `json:"environ,omitempty"`
 	ExtraVars []string `json:"extra_vars,omitempty"`
@@ -273,6 +280,30 @@ func c14Exec(it *interp.Interpreter, run *c14Run, log *core.Log, shared *core.Si
 	if cfg.Environ == nil && !run.EnvNil {
 		cfg.Environ = []string{}
 	}
+	cwdDir := ""
+	if run.NilOpen {
+		cfg.OpenFile = nil
+		d, derr := os.MkdirTemp(scratchBase(), "c14cwd")
+		if derr != nil {
+			core.Fatal("C14: cwd: %v", derr)
+		}
+		cwdDir = d
+		for _, name := range []string{"in1", "in2", "csv1", "out2"} {
+			b, _ := fs.Get(name)
+			_ = os.WriteFile(d+"/"+name, b, 0644)
+		}
+		old, _ := os.Getwd()
+		if err := os.Chdir(d); err != nil {
+			core.Fatal("C14: chdir: %v", err)
+		}
+		defer func() {
+			_ = os.Chdir(old)
+			_ = os.RemoveAll(d)
+		}()
+	}
+	if run.NilShell {
+		cfg.ShellCommand = nil
+	}
 	if run.CRLF {
 		cfg.NewlineOutput = interp.CRLFNewlineMode
 	}
@@ -305,6 +336,9 @@ func c14Exec(it *interp.Interpreter, run *c14Run, log *core.Log, shared *core.Si
 		"cmdin", "ci;emit:from-child\n;exit:0", "cmdout", "co;save:" + fs.Path("cmdsaved") + ";exit:3",
 	}
 	cfg.Vars = append(cfg.Vars, run.ExtraVars...)
+	if run.BadMode {
+		cfg.Vars = append(cfg.Vars, "NR", "7", "FNR", "3", "RSTART", "4", "NF", "2", "OUTPUTMODE", "bogus")
+	}
 	if run.BadVars {
 		cfg.Vars = append(cfg.Vars, "dangling")
 	}
@@ -343,6 +377,11 @@ func c14Exec(it *interp.Interpreter, run *c14Run, log *core.Log, shared *core.Si
 	res.Stderr = strings.ReplaceAll(res.Stderr, fs.Dir, "<fs>")
 	res.Err = strings.ReplaceAll(res.Err, fs.Dir, "<fs>")
 	res.Files = core.SnapshotString(fs.Snapshot())
+	if cwdDir != "" {
+		res.Files += " cwd: " + dirListing(cwdDir)
+		res.Stderr = strings.ReplaceAll(res.Stderr, cwdDir, "<cwd>")
+		res.Err = strings.ReplaceAll(res.Err, cwdDir, "<cwd>")
+	}
 	res.Steps = steps
 	if stdout.Failed > 0 {
 		res.Fired["fault:stdout_write_error"] += stdout.Failed
@@ -483,6 +522,9 @@ func c14GenRun(r *core.Rand, resetVars, resetRand bool, children bool) c14Run {
 		run.OutFailAt = r.Intn(60)
 	}
 	run.BadVars = r.Chance(1, 25)
+	run.BadMode = r.Chance(1, 25)
+	run.NilOpen = r.Chance(1, 10)
+	run.NilShell = run.UseCmd && r.Chance(1, 6)
 	if r.Chance(1, 4) && !run.EnvNil {
 		run.Environ = []string{"HOME", "/h", "E" + fmt.Sprint(r.Intn(3)), "v"}
 	}
@@ -650,7 +692,8 @@ func (c14Engine) Shrink(scAny any) []any {
 			{run.NoFileReads, func(r *c14Run) { r.NoFileReads = false }}, {run.Chars, func(r *c14Run) { r.Chars = false }},
 			{run.CRLF, func(r *c14Run) { r.CRLF = false }}, {run.NoArgVars, func(r *c14Run) { r.NoArgVars = false }},
 			{run.EnvNil, func(r *c14Run) { r.EnvNil = false }},
-			{run.OutFail, func(r *c14Run) { r.OutFail = false }}, {run.BadVars, func(r *c14Run) { r.BadVars = false }},
+			{run.OutFail, func(r *c14Run) { r.OutFail = false }}, {run.BadVars, func(r *c14Run) { r.BadVars = false }}, {run.BadMode, func(r *c14Run) { r.BadMode = false }},
+			{run.NilOpen, func(r *c14Run) { r.NilOpen = false }}, {run.NilShell, func(r *c14Run) { r.NilShell = false }},
 			{run.BadSep, func(r *c14Run) { r.BadSep = false }}, {run.Header, func(r *c14Run) { r.Header = false }},
 			{run.Ctx != "", func(r *c14Run) { r.Ctx = "" }}, {run.InputMode != "", func(r *c14Run) { r.InputMode, r.Header, r.CSVSep, r.BadSep = "", false, "", false }},
 			{run.OutputMode != "", func(r *c14Run) { r.OutputMode = "" }}, {run.CSVSep != "", func(r *c14Run) { r.CSVSep = "" }},
